@@ -92,6 +92,28 @@ pub fn check(c: &Case, seams_open: bool) -> CheckResult {
     o.class(["join:miter", "join:round", "join:bevel"][c.style.join as usize % 3]);
     o.class_if(curves, "curves");
     o.class_if(polys.iter().any(|p| p.closed), "closed-subpath");
+    // closed subpath whose last explicit point equals its start
+    {
+        let mut start: Option<(f32, f32)> = None;
+        let mut last: Option<(f32, f32)> = None;
+        let mut explicit = false;
+        for op in &c.path.ops {
+            match *op {
+                POp::M(x, y) => {
+                    start = Some((x, y));
+                    last = start;
+                }
+                POp::L(x, y) => last = Some((x, y)),
+                POp::Z => {
+                    if start.is_some() && start == last && c.path.ops.len() > 3 {
+                        explicit = true;
+                    }
+                }
+                _ => {}
+            }
+        }
+        o.class_if(explicit, "closed-with-explicit-return-to-start");
+    }
     o.class_if(polys.iter().any(|p| !p.closed), "open-subpath");
     o.class(classify_xf(&c.xf));
     // angle classes actually present
@@ -148,8 +170,8 @@ fn turtle(ext: f32) -> BoxedStrategy<(Vec<(f32, f32)>, bool)> {
         1 => prop_oneof![-1.0f32..1.0, 179.0f32..181.0],
     ];
     let step = (angle, prop_oneof![3 => 2.0f32..14.0, 1 => 0.25f32..2.0, 1 => Just(0.0f32)]);
-    (0.0f32..ext, 0.0f32..ext, 0.0f32..360.0, prop::collection::vec(step, 1..=5), any::<bool>())
-        .prop_map(move |(x, y, a0, steps, closed)| {
+    (0.0f32..ext, 0.0f32..ext, 0.0f32..360.0, prop::collection::vec(step, 1..=5), any::<bool>(), prop::bool::weighted(0.3))
+        .prop_map(move |(x, y, a0, steps, closed, explicit_return)| {
             let mut pts = vec![(x, y)];
             let mut dir = a0 as f64;
             let (mut cx, mut cy) = (x as f64, y as f64);
@@ -161,6 +183,11 @@ fn turtle(ext: f32) -> BoxedStrategy<(Vec<(f32, f32)>, bool)> {
                 cx = cx.clamp(-6.0, ext as f64 + 6.0);
                 cy = cy.clamp(-6.0, ext as f64 + 6.0);
                 pts.push((cx as f32, cy as f32));
+            }
+            // closed subpaths that return *exactly* to their start before close() (as exported SVG paths do):
+            // the closing segment then has zero length and the closing join must still be there
+            if closed && explicit_return {
+                pts.push(pts[0]);
             }
             (pts, closed)
         })
@@ -288,6 +315,7 @@ pub fn property(ctx: &Ctx) -> Property {
             ("region", "cap-visible", 0.15),
             ("region", "curves", 0.2),
             ("region", "closed-subpath", 0.2),
+            ("region", "closed-with-explicit-return-to-start", 0.03),
             ("region", "width<=0-or-nan", 0.03),
             ("region", "xf:general", 0.1),
         ],
